@@ -521,10 +521,23 @@ class DocumentationAggregator(CMakeListener):
         :param docstring: Cleaned docstring.
         """
 
-        args = ctx.single_argument() + ctx.compound_argument()
-        args = [val.getText() for val in args]
+        # Keep the arguments in source order, parenthesized groups included
+        args = [DocumentationAggregator.argument_text(child) for child in ctx.children
+                if isinstance(child, (CMakeParser.Single_argumentContext, CMakeParser.Compound_argumentContext))]
         self.documented.append(GenericCommandDocumentation(
             command_name, docstring, args))
+
+    @staticmethod
+    def argument_text(arg: ParserRuleContext) -> str:
+        """
+        The text of a command argument. A parenthesized group is rendered as its
+        arguments separated by single spaces, since whitespace is not part of the parse tree.
+        """
+        if isinstance(arg, CMakeParser.Compound_argumentContext):
+            inner = [DocumentationAggregator.argument_text(child) for child in arg.children
+                     if isinstance(child, (CMakeParser.Single_argumentContext, CMakeParser.Compound_argumentContext))]
+            return "(" + " ".join(inner) + ")"
+        return arg.getText()
 
     def has_processor(self, command: str) -> bool:
         """
